@@ -4,7 +4,7 @@
 cd /verif || exit 2
 for d in seeded/*/; do
   p=$(python3 -c "import json;print(json.load(open('$d/meta.json'))['property'])")
-  out=$(tools/try_mutant.sh "$d/patch.diff" "$p" 2>&1)
+  out=$(tools/try_mutant.sh "/verif/$d/patch.diff" "$p" 2>&1)
   rc=$(echo "$out" | grep -o "rc=[0-9]*" | head -1)
   echo "$(basename $d) $p $rc $(echo "$out" | grep -E '^violation|oracle=' | head -1 | cut -c1-120)"
 done
